@@ -225,3 +225,66 @@ def check_case(pid, case):
     if tr:
         res.classes.append("corpus_transformed")
     return res
+
+
+# ------------------------------------------------------------- transposition of real payloads
+
+
+def transposed_response(response):
+    """The response with its two (logical) dimensions exchanged and every data array
+    transposed accordingly, or None when the payload is not a plain 2-D cube (numeric arrays
+    add a pseudo-dimension, overlap / covariance measures carry extra axes)."""
+    import numpy as np
+    from cr.cube.cube import Cube
+
+    env_ = response if "result" in response else response.get("value")
+    if not isinstance(env_, dict) or "result" not in env_:
+        return None
+    r = env_["result"]
+    if "margins" in r or any(m in (r.get("measures") or {}) for m in (
+            "overlap", "valid_overlap", "covariance")):
+        return None
+    cube = Cube(json.loads(json.dumps(response)))
+    try:
+        if cube._numeric_array_dimension:
+            return None
+        all_dims = list(cube._all_dimensions)
+    except Exception:
+        return None
+    raw = r["dimensions"]
+    if len(all_dims) != len(raw):
+        return None
+    groups, k = [], 0
+    while k < len(all_dims):
+        if all_dims[k].dimension_type.name == "MR_SUBVAR" and k + 1 < len(all_dims) and \
+                all_dims[k + 1].dimension_type.name == "MR_CAT":
+            groups.append([k, k + 1])
+            k += 2
+        else:
+            groups.append([k])
+            k += 1
+    if len(groups) != 2:
+        return None
+    shape = [len(d.all_elements) for d in all_dims]
+    perm = groups[1] + groups[0]
+    n = int(np.prod(shape))
+
+    def tdata(data):
+        if not isinstance(data, list) or len(data) != n:
+            raise ValueError("unexpected data length")
+        arr = np.empty(n, dtype=object)
+        for i, x in enumerate(data):
+            arr[i] = x
+        return arr.reshape(shape).transpose(perm).reshape(-1).tolist()
+
+    out = json.loads(json.dumps(response))
+    r2 = (out if "result" in out else out["value"])["result"]
+    try:
+        r2["dimensions"] = [raw_ for g_ in (groups[1], groups[0]) for raw_ in
+                            [json.loads(json.dumps(raw[i])) for i in g_]]
+        r2["counts"] = tdata(r["counts"])
+        for name, m in (r.get("measures") or {}).items():
+            r2["measures"][name]["data"] = tdata(m["data"])
+    except ValueError:
+        return None
+    return out
